@@ -44,6 +44,23 @@ func Run(ctx *core.Ctx) int {
 		fmt.Println(sysrun.ListFiles(d))
 		return 0
 	}
+	if ctx.Args["scenario"] == "skipsource" {
+		p = progs.ClockSparse(2)
+		chain := sysrun.LinearChain{Head: 40, Final: 40}
+		d := sysrun.Scratch("skip")
+		r0 := sysrun.Run(sysrun.Config{Modules: p.Modules, Output: "sp", Prod: true, Seg: 5, Start: 9, Stop: 20, Dir: d, Source: chain})
+		show("history: output sp prod [9,20)", r0)
+		fmt.Println(sysrun.ListFiles(d))
+		rec := &recSource{inner: chain}
+		r := sysrun.Run(sysrun.Config{Modules: p.Modules, Output: "m", Prod: true, Seg: 5, Start: 9, Stop: 21, Final: 15, Dir: d, Source: rec})
+		show("main: output m prod [9,21) final 15", r)
+		fmt.Println("block source calls:", rec.calls)
+		fmt.Println(sysrun.ListFiles(d))
+		d2 := sysrun.Scratch("skip2")
+		r2 := sysrun.Run(sysrun.Config{Modules: p.Modules, Output: "m", Prod: true, Seg: 5, Start: 9, Stop: 21, Final: 15, Dir: d2, Source: chain})
+		show("main on empty cache", r2)
+		return 0
+	}
 	chain := sysrun.LinearChain{Head: 40, Final: 40}
 	d1 := sysrun.Scratch("lin")
 	lin := sysrun.Run(sysrun.Config{Modules: p.Modules, Output: p.Output, Prod: false, Seg: 5, Start: 6, Stop: 20, Dir: d1, Source: chain})
@@ -66,4 +83,14 @@ func Run(ctx *core.Ctx) int {
 		}
 	}
 	return 0
+}
+
+type recSource struct {
+	inner sysrun.Source
+	calls []string
+}
+
+func (r *recSource) Steps(start, stop uint64, cursor string, tier2 bool) []sysrun.Step {
+	r.calls = append(r.calls, fmt.Sprintf("[%d,%d) tier2=%v", start, stop, tier2))
+	return r.inner.Steps(start, stop, cursor, tier2)
 }
